@@ -621,6 +621,49 @@ pub fn run_shape(shape: &Shape, idx: usize, node_cap: usize, stats: &mut NormSta
     }
 }
 
+/// Features that come into being one after the other (a lazy parser): every entity of
+/// the earlier feature is gone before the next one is created, so the allocator may hand
+/// the same addresses out again. Whatever identity `Normalize` keeps must not outlive the
+/// entity. (Detection depends on the allocator reusing a block; a miss is silent, a hit
+/// is a genuine loss of events.)
+pub fn late_features(rounds: usize) -> Option<String> {
+    let spec = FeatSpec {
+        scenarios: vec![ScenSpec { tags: vec![], steps: vec![StepKind::Matched] }],
+        ..Default::default()
+    };
+    let mut w: NW = Rec::default().normalized();
+    let mut want: Vec<Ev> = vec![Ev::Started];
+    feed(&mut w, Ok(cucumber::Event::new(cucumber::event::Cucumber::Started)), &cli::Empty);
+    for k in 0..rounds {
+        // a fresh feature, fed sequentially, then dropped with everything that refers to it
+        let src = Sources::from_features(vec![spec.parse(k)]);
+        let f = crate::spec::feat_name(k);
+        let s = format!("{f}.S1");
+        let evs = vec![
+            Ev::FeatStarted(f.clone()),
+            sc(&f, None, &s, None, ScEv::Started),
+            sc(&f, None, &s, None, ScEv::Finished),
+            Ev::FeatFinished(f.clone()),
+        ];
+        for e in &evs {
+            feed(&mut w, src.realize(e), &cli::Empty);
+        }
+        want.extend(evs);
+        drop(src);
+    }
+    feed(&mut w, Ok(cucumber::Event::new(cucumber::event::Cucumber::Finished)), &cli::Empty);
+    want.push(Ev::Finished);
+    let got = out_events(&w);
+    (got != want).then(|| {
+        let missing: Vec<String> = want.iter().filter(|e| !got.contains(e)).map(Ev::short).take(6).collect();
+        format!(
+            "{rounds} features created, fed sequentially and dropped one after the other: the inner writer saw {} of {} events; missing e.g. {missing:?}",
+            got.len(),
+            want.len()
+        )
+    })
+}
+
 /// Replays one recorded order of one shape, printing every step.
 pub fn replay(thorough: bool, shape_idx: usize, order: &[usize]) -> i32 {
     let shapes = tier_shapes(thorough);
